@@ -1366,17 +1366,7 @@ impl<'comments> Formatter<'comments> {
     }
 
     fn call<'a>(&mut self, fun: &'a UntypedExpr, args: &'a [CallArg<UntypedExpr>]) -> Document<'a> {
-        let is_constr = match fun {
-            UntypedExpr::Var { name, .. } => name[0..1].chars().all(|c| c.is_uppercase()),
-            UntypedExpr::FieldAccess { label, .. } => label[0..1].chars().all(|c| c.is_uppercase()),
-            _ => false,
-        };
-
-        let needs_curly = if is_constr {
-            args.iter().all(|arg| arg.label.is_some())
-        } else {
-            false
-        };
+        let needs_curly = needs_curly(fun, args);
 
         self.expr(fun, false)
             .append(wrap_args(
@@ -1662,8 +1652,14 @@ impl<'comments> Formatter<'comments> {
             )
         } else {
             // x |> fun(1, _, 3)
-            self.expr(fun, false)
-                .append(wrap_args(args.iter().map(|a| (self.call_arg(a, false), false))).group())
+            let needs_curly = needs_curly(fun, args);
+            self.expr(fun, false).append(
+                wrap_args(
+                    args.iter()
+                        .map(|a| (self.call_arg(a, needs_curly), needs_curly)),
+                )
+                .group(),
+            )
         }
     }
 
@@ -1688,9 +1684,16 @@ impl<'comments> Formatter<'comments> {
                         .group()
                 }
 
-                _ => self.expr(fun, false).append(
-                    wrap_args(args.iter().map(|a| (self.call_arg(a, false), false))).group(),
-                ),
+                _ => {
+                    let needs_curly = needs_curly(fun, args);
+                    self.expr(fun, false).append(
+                        wrap_args(
+                            args.iter()
+                                .map(|a| (self.call_arg(a, needs_curly), needs_curly)),
+                        )
+                        .group(),
+                    )
+                }
             },
 
             // The body of a capture being not a fn shouldn't be possible...
@@ -2286,6 +2289,17 @@ impl<'a> Documentable<'a> for &'a BinOp {
         }
         .to_doc()
     }
+}
+
+/// A constructor whose arguments are all labelled is written (and only parses) with curly braces.
+fn needs_curly(fun: &UntypedExpr, args: &[CallArg<UntypedExpr>]) -> bool {
+    let is_constr = match fun {
+        UntypedExpr::Var { name, .. } => name[0..1].chars().all(|c| c.is_uppercase()),
+        UntypedExpr::FieldAccess { label, .. } => label[0..1].chars().all(|c| c.is_uppercase()),
+        _ => false,
+    };
+
+    is_constr && args.iter().all(|arg| arg.label.is_some())
 }
 
 pub fn wrap_args<'a, I>(args: I) -> Document<'a>
